@@ -1,7 +1,18 @@
 #!/bin/bash
-# builds the harness against /repo's current working tree (path dependency); prints the binary path
-cd /verif/bounded || exit 2
-cp /repo/Cargo.lock Cargo.lock 2>/dev/null
-export CARGO_NET_OFFLINE=true CARGO_TARGET_DIR=/verif/build/bounded-target
+# builds the harness against the working tree of /repo (path dependency); prints the binary path.
+# VERIF_REPO=<dir> (development aid used by tools/try_patch.sh and tools/run_seeds.py) builds against a scratch copy instead.
+REPO=${VERIF_REPO:-/repo}
+mkdir -p /verif/build
+if [ "$REPO" = /repo ]; then
+  CR=/verif/bounded; TD=/verif/build/bounded-target
+else
+  CR=/verif/build/bounded-scratch; TD=/verif/build/bounded-target-scratch
+  rm -rf $CR; mkdir -p $CR
+  cp -r /verif/bounded/src /verif/bounded/.cargo $CR/
+  sed "s#path = \"/repo\"#path = \"$REPO\"#" /verif/bounded/Cargo.toml > $CR/Cargo.toml
+fi
+cd $CR || exit 2
+cp $REPO/Cargo.lock Cargo.lock 2>/dev/null
+export CARGO_NET_OFFLINE=true CARGO_TARGET_DIR=$TD
 cargo build --offline --quiet 2> /verif/build/bounded-build.log || { tail -30 /verif/build/bounded-build.log >&2; exit 2; }
-echo /verif/build/bounded-target/debug/bounded
+echo $TD/debug/bounded
